@@ -321,6 +321,16 @@ func c07Deviations() []envDev {
 	twin(envenc.HdrAuthTime, "io.cncf.notary.authenticsigningtime", tstr(-96*time.Hour), "sa")
 	twin(envenc.HdrExpiry, "io.cncf.notary.Expiry", tstr(9999*time.Hour), "expiry")
 	twin(envenc.HdrExpiry, "io.cncf.notary.EXPIRY", tstr(9998*time.Hour), "expiry")
+	// twins under Unicode simple case folding (U+017F LATIN SMALL LETTER LONG S folds onto s, as encoding/json's field matching does)
+	twin(envenc.HdrScheme, "io.cncf.notary.\u017figningScheme", func(s *envSpec) string {
+		if s.cont.Scheme == envenc.SchemeX509 {
+			return `"` + envenc.SchemeSA + `"`
+		}
+		return `"` + envenc.SchemeX509 + `"`
+	}, "")
+	twin(envenc.HdrSigningTime, "io.cncf.notary.\u017figningTime", tstr(-94*time.Hour), "x509")
+	twin(envenc.HdrAuthTime, "io.cncf.notary.authentic\u017figningTime", tstr(-93*time.Hour), "sa")
+	twin(envenc.HdrSigningTime, "io.cncf.notary.\u017figningTime(under signingAuthority)", tstr(-92*time.Hour), "sa")
 	// a twin that would *supply* a header the exact set lacks
 	twin(envenc.HdrExpiry, "io.cncf.notary.Expiry(no exact expiry)", tstr(9997*time.Hour), "noexpiry")
 	twin(envenc.HdrAuthTime, "io.cncf.notary.AuthenticSigningTime(under x509)", tstr(-95*time.Hour), "x509")
